@@ -291,13 +291,24 @@ def r4_subgraphs(cx):
                construct=short(ys[0]) if ys else "(no yield)")
     rem = [c for c in find_calls(outer.body, attr="remove") if U(c.func.value) == keys]
     ok = False
+    removal = None       # the statement after which no member of 'seen' is pending any more
     if rem:
         lp = enclosing(rem[0], ast.For)
         ok = lp is not None and U(lp.iter) == seen and U(rem[0].args[0]) == U(lp.target) and (not ys or syn_dominates(stmt_of(ys[0]), lp))
-    cx.require(ok, rem[0] if rem else outer, "every member of the yielded sub-graph is removed from the pending keys (no component appears in two sub-graphs)",
-               construct=short(rem[0]) if rem else "(no keys.remove)")
+        removal = lp
+    else:
+        # filter form: keys = [k for k in keys if k not in seen]   (also keys[:] = ..., or a difference on an ordered rebuild)
+        for a in [x for x in outer.body if isinstance(x, ast.Assign) and U(x.targets[0]) in (keys, "%s[:]" % keys) and isinstance(x.value, ast.ListComp)]:
+            lc = a.value
+            g = lc.generators[0]
+            if len(lc.generators) == 1 and U(g.iter) == keys and U(lc.elt) == U(g.target) and [U(i) for i in g.ifs] == ["%s not in %s" % (U(g.target), seen)] \
+                    and (not ys or syn_dominates(stmt_of(ys[0]), a)):
+                ok = True
+                removal = a
+    cx.require(ok, rem[0] if rem else (removal if removal is not None else outer), "every member of the yielded sub-graph is removed from the pending keys (no component appears in two sub-graphs)",
+               construct=short(rem[0]) if rem else (short(removal) if removal is not None else "(no keys.remove)"))
     clr = [c for c in find_calls(outer.body, attr="clear") if U(c.func.value) == seen]
-    ok = bool(clr) and bool(rem) and syn_dominates(enclosing(rem[0], ast.For), clr[0]) if rem else False
+    ok = bool(clr) and removal is not None and syn_dominates(removal, clr[0])
     cx.require(ok, clr[0] if clr else outer, "'seen' is cleared only after its members were removed from the pending keys", construct=short(clr[0]) if clr else "(no seen.clear())")
 
 
@@ -360,6 +371,8 @@ STRICT = [(DR, "run_components"), (DR, "ComponentType.invoke"), (DR, "ComponentT
 # reviewed exceptions inside the strict region: (function, sink text prefix) -> reason
 STRICT_EXEMPT = {
     ("run_components", "BLACKLISTED_SPECS.append"): "global report list of deny-listed spec names; not part of the compared broker state",
+    ("run_components", "generator consumed by BLACKLISTED_SPECS.extend"): "global report list of deny-listed spec names; not part of the compared broker state",
+    ("run_components", "list consumed by BLACKLISTED_SPECS.extend"): "global report list of deny-listed spec names; not part of the compared broker state",
     ("Broker.fire_observers", "call"): "observers in a set are called in hash order; observers are required to be independent of each other",
 }
 
